@@ -3,6 +3,8 @@
 package recordstore
 
 import (
+	"os"
+	"sort"
 	"strings"
 	"testing"
 	"time"
@@ -246,6 +248,176 @@ func vC26FieldMutate(r *vRand, v string) string {
 	}
 }
 
+// ---- real zones: the table of offset changes Go reports, shipped to the model ---------------------
+
+type vC26Tr struct{ when, off int64 }
+
+func vC26OffAt(loc *time.Location, u int64) int64 {
+	_, o := time.Unix(u, 0).In(loc).Zone()
+	return int64(o)
+}
+
+// vC26Table lists the instants in (lo, hi] at which loc's offset changes, found with Time.ZoneBounds
+// (neighbouring periods of equal offset - abbreviation changes, the year boundaries Go inserts after the
+// last explicit transition - are merged), and the offset in force at lo.
+func vC26Table(loc *time.Location, lo, hi int64) (int64, []vC26Tr) {
+	t := time.Unix(lo, 0).In(loc)
+	first := vC26OffAt(loc, lo)
+	prev := first
+	var out []vC26Tr
+	for t.Unix() <= hi {
+		_, end := t.ZoneBounds()
+		if end.IsZero() || end.Unix() > hi {
+			break
+		}
+		if !end.After(t) { // no progress (seen at year boundaries beyond the explicit table)
+			t = t.Add(24 * time.Hour)
+			continue
+		}
+		t = end.In(loc)
+		if o := vC26OffAt(loc, end.Unix()); o != prev {
+			out = append(out, vC26Tr{end.Unix(), o})
+			prev = o
+		}
+	}
+	return first, out
+}
+
+func vC26TableCq(first int64, tx []vC26Tr) (string, string) {
+	return cqZ(first), cqListOf(tx, func(t vC26Tr) string { return cqPair(cqZ(t.when), cqZ(t.off)) })
+}
+
+func vC26TableDesc(first int64, tx []vC26Tr) any {
+	var l [][2]int64
+	for _, t := range tx {
+		l = append(l, [2]int64{t.when, t.off})
+	}
+	return map[string]any{"first_offset": first, "changes": l}
+}
+
+// vC26Repeated: does another instant show the same wall-clock reading as u? Asked of Go's offset function
+// directly: for every offset o the zone uses nearby, is u + off(u) - o an instant at offset o.
+func vC26Repeated(loc *time.Location, u int64, offs []int64) bool {
+	off := vC26OffAt(loc, u)
+	for _, o := range offs {
+		if u2 := u + off - o; u2 != u && vC26OffAt(loc, u2) == o {
+			return true
+		}
+	}
+	return false
+}
+
+func vC26Offsets(first int64, tx []vC26Tr) []int64 {
+	seen := map[int64]bool{first: true}
+	for _, t := range tx {
+		seen[t.off] = true
+	}
+	var l []int64
+	for o := range seen {
+		l = append(l, o)
+	}
+	sort.Slice(l, func(i, j int) bool { return l[i] < l[j] })
+	return l
+}
+
+// the offset time.Date subtracts for the wall-clock reading of tm
+func vC26Applied(tm time.Time, loc *time.Location) int64 {
+	_, off := tm.Zone()
+	wall := tm.Unix() + int64(off)
+	return wall - time.Date(tm.Year(), tm.Month(), tm.Day(), tm.Hour(), tm.Minute(), tm.Second(), 0, loc).Unix()
+}
+
+var vC26ZoneNames = []string{"Europe/Rome", "America/New_York", "Europe/London", "America/St_Johns", "Australia/Lord_Howe",
+	"Atlantic/Azores", "Pacific/Apia", "Africa/Casablanca", "America/Sao_Paulo", "Asia/Kathmandu", "Pacific/Chatham", "Africa/Cairo"}
+
+var vC26ZoneFormats = []string{"/rec/%path/%Y-%m-%d_%H-%M-%S-%f.mp4", "%path/%Y%m%d%H%M%S", "%path/%Y-%m-%d_%H-%M-%S-%f%z", "%path_%s-%f",
+	"%Y/%m/%d/%path/%H-%M-%S-%f", "%path/%Y-%m/%Y-%m-%d_%H-%M-%S"}
+
+const vC26Day = 86400
+
+// vC26ZoneCases: the sweeps around every offset change of the years [y0, y1) and the scan of the offset function
+func vC26ZoneCases(out *vOut, r *vRand, locs []*time.Location, y0, y1 int, step, scanStep int64) {
+	lo := time.Date(y0, 1, 1, 0, 0, 0, 0, time.UTC).Unix()
+	hi := time.Date(y1, 1, 1, 0, 0, 0, 0, time.UTC).Unix()
+	for _, loc := range locs {
+		time.Local = loc
+		first, tx := vC26Table(loc, lo-500*vC26Day, hi+500*vC26Day)
+		offs := vC26Offsets(first, tx)
+
+		// scan: Go's offset every scanStep seconds against the table
+		type run struct{ cnt, off int64 }
+		var runs []run
+		for u := lo; u < hi; u += scanStep {
+			o := vC26OffAt(loc, u)
+			if k := len(runs); k > 0 && runs[k-1].off == o && runs[k-1].cnt < 4000 {
+				runs[k-1].cnt++
+			} else {
+				runs = append(runs, run{1, o})
+			}
+		}
+		zf, ztx := vC26TableCq(first, tx)
+		out.Case(cqApp("ZScan", zf, ztx, cqZ(lo), cqZ(scanStep), cqListOf(runs, func(x run) string { return cqPair(cqZ(x.cnt), cqZ(x.off)) })),
+			map[string]any{"kind": "zscan", "zone": loc.String(), "from": lo, "to": hi, "step": scanStep, "changes": len(tx), "runs": len(runs)},
+			"zone-offset-scan", true)
+
+		// sweeps
+		for _, tr := range tx {
+			if tr.when < lo || tr.when >= hi {
+				continue
+			}
+			var local []vC26Tr
+			lfirst := first
+			for _, t2 := range tx {
+				if t2.when < tr.when-450*vC26Day {
+					lfirst = t2.off
+				} else if t2.when <= tr.when+450*vC26Day {
+					local = append(local, t2)
+				}
+			}
+			f := vPick(r, vC26ZoneFormats)
+			name := vPick(r, []string{"cam", "a/b", "x-0100", "2024"})
+			type srun struct {
+				cnt, off, delta int64
+				rep, ok         bool
+			}
+			var sr []srun
+			start := tr.when - 7200
+			nrep, nlost := 0, 0
+			for u := start; u <= tr.when+7200; u += step {
+				tm := time.Unix(u, 0).In(loc)
+				enc := Path{Path: name, Start: tm}.Encode(f)
+				o := vC26Decode(f, enc)
+				x := srun{1, vC26OffAt(loc, u), 0, vC26Repeated(loc, u, offs), o.ok && o.path == name}
+				if o.ok {
+					x.delta = o.unix - u
+				}
+				if x.rep {
+					nrep++
+				}
+				if x.delta != 0 {
+					nlost++
+				}
+				if k := len(sr); k > 0 && sr[k-1].off == x.off && sr[k-1].delta == x.delta && sr[k-1].rep == x.rep && sr[k-1].ok == x.ok {
+					sr[k-1].cnt++
+				} else {
+					sr = append(sr, x)
+				}
+			}
+			class := "zsweep-forward"
+			if nrep > 0 {
+				class = "zsweep-backward"
+			}
+			zf, ztx := vC26TableCq(lfirst, local)
+			out.Case(cqApp("ZSweep", zf, ztx, cqBytes(f), cqBytes(name), cqZ(start), cqZ(step), cqListOf(sr, func(x srun) string {
+				return cqPair(cqZ(x.cnt), "("+cqZ(x.off)+", "+cqZ(x.delta)+", "+cqBool(x.rep)+", "+cqBool(x.ok)+")")
+			})),
+				map[string]any{"kind": "zsweep", "zone": loc.String(), "change_at": time.Unix(tr.when, 0).UTC().Format(time.RFC3339), "format": f, "path": name,
+					"step": step, "instants_in_repeated_hour": nrep, "instants_not_recovered": nlost, "table": vC26TableDesc(lfirst, local)},
+				class, true)
+		}
+	}
+}
+
 func TestVerifC26(t *testing.T) {
 	r := vNewRand(vSeed())
 	out := vOpenOut()
@@ -254,14 +426,56 @@ func TestVerifC26(t *testing.T) {
 	saved := time.Local
 	defer func() { time.Local = saved }()
 
-	zones := []string{"Europe/Rome", "America/St_Johns", "Asia/Kathmandu", "Australia/Lord_Howe", "America/New_York"}
 	var locs []*time.Location
-	for _, z := range zones {
+	for _, z := range vC26ZoneNames {
 		if l, err := time.LoadLocation(z); err == nil {
 			locs = append(locs, l)
 		}
 	}
 	out.extra["real_zones_loaded"] = len(locs)
+
+	// every offset change of several years, +-2 h: quick 2019-2031 at 1-minute steps; thorough 2000-2037 at 20 s
+	if os.Getenv("VERIF_TIER") == "thorough" {
+		vC26ZoneCases(out, r, locs, 2000, 2037, 20, 3600)
+	} else {
+		vC26ZoneCases(out, r, locs, 2019, 2031, 60, 6*3600)
+	}
+	type vC26Z struct {
+		loc   *time.Location
+		first int64
+		tx    []vC26Tr
+	}
+	var ztabs []vC26Z
+	for _, l := range locs {
+		f0, tx := vC26Table(l, time.Date(1996, 1, 1, 0, 0, 0, 0, time.UTC).Unix(), time.Date(2037, 1, 1, 0, 0, 0, 0, time.UTC).Unix())
+		ztabs = append(ztabs, vC26Z{l, f0, tx})
+	}
+	// the part of a zone's table within 450 days of u
+	localTable := func(z vC26Z, u int64) (int64, []vC26Tr) {
+		first := z.first
+		var local []vC26Tr
+		for _, t2 := range z.tx {
+			if t2.when < u-450*vC26Day {
+				first = t2.off
+			} else if t2.when <= u+450*vC26Day {
+				local = append(local, t2)
+			}
+		}
+		return first, local
+	}
+	// an instant of 1998..2035: mostly within 3 h of an offset change
+	zoneUnix := func(z vC26Z) int64 {
+		var cands []vC26Tr
+		for _, t2 := range z.tx {
+			if t2.when > 883612800 && t2.when < 2051222400 {
+				cands = append(cands, t2)
+			}
+		}
+		if len(cands) > 0 && r.Chance(3, 4) {
+			return vPick(r, cands).when + int64(r.Intn(6*3600)) - 3*3600
+		}
+		return 883612800 + int64(r.U64()%1167609600)
+	}
 
 	for i := 0; i < n; i++ {
 		f := vC26Format(r)
@@ -311,28 +525,68 @@ func TestVerifC26(t *testing.T) {
 				map[string]any{"kind": "roundtrip", "format": f, "path": name, "unix": unix, "ns": ns, "offset": off, "local_offset": loff,
 					"encoded": enc, "decoded": o.desc()}, class, o.ok)
 
-		case k < 11 && len(locs) > 0: // round trip in a real zone; the offset time.Date applied is shipped (oracle)
-			loc := vPick(r, locs)
-			time.Local = loc
-			ff := vPick(r, []string{"/rec/%path/%Y-%m-%d_%H-%M-%S-%f.mp4", "%path/%Y-%m-%d_%H-%M-%S-%f%z", "%path_%s-%f", "%path/%Y%m%d%H%M%S"})
-			tm := time.Unix(unix, ns).In(loc)
+		case k < 12 && len(ztabs) > 0: // round trip in a real zone; the zone's table is shipped
+			z := vPick(r, ztabs)
+			time.Local = z.loc
+			ff := vPick(r, vC26ZoneFormats) // identifying formats only: the shipped table covers +-450 days around the instant
+			u := zoneUnix(z)
+			tm := time.Unix(u, ns).In(z.loc)
 			_, off := tm.Zone()
 			enc := Path{Path: name, Start: tm}.Encode(ff)
 			o := vC26Decode(ff, enc)
-			applied := off
+			first, local := localTable(z, u)
+			rep := vC26Repeated(z.loc, u, vC26Offsets(first, local))
+			applied := vC26Applied(tm, z.loc)
+			class := "zround-rejected"
 			if o.ok {
-				applied = int(time.Date(tm.Year(), tm.Month(), tm.Day(), tm.Hour(), tm.Minute(), tm.Second(), 0, time.UTC).Unix() - o.unix)
-			}
-			class := "realzone-rejected"
-			if o.ok {
-				class = "realzone-recognised"
-				if applied != off {
-					class = "realzone-ambiguous-local-time"
+				class = "zround-recognised"
+				if o.unix != u {
+					class = "zround-other-instant"
+					if rep && !strings.Contains(ff, "%z") && !strings.Contains(ff, "%s") {
+						class = "dst-repeated-hour"
+					}
 				}
 			}
-			out.Case(cqApp("Round", cqZ(int64(applied)), cqBytes(ff), cqBytes(name), cqZ(unix), cqZ(ns), cqZ(int64(off)), cqBytes(enc), o.coq()),
-				map[string]any{"kind": "roundtrip-realzone", "zone": loc.String(), "format": ff, "path": name, "unix": unix, "ns": ns, "offset": off,
-					"applied_offset": applied, "encoded": enc, "decoded": o.desc()}, class, o.ok)
+			if vC26Degenerate(ff) {
+				class = "zround-degenerate-format"
+			}
+			zf, ztx := vC26TableCq(first, local)
+			out.Case(cqApp("ZRound", zf, ztx, cqBytes(ff), cqBytes(name), cqZ(u), cqZ(ns), cqZ(int64(off)), cqBool(rep), cqZ(applied), cqBytes(enc), o.coq()),
+				map[string]any{"kind": "zround", "zone": z.loc.String(), "format": ff, "path": name, "unix": u, "ns": ns, "offset": off,
+					"local_time": tm.Format("2006-01-02T15:04:05.000000-07:00"), "repeated": rep, "applied_offset": applied, "encoded": enc,
+					"decoded": o.desc(), "table": vC26TableDesc(first, local)}, class, o.ok)
+
+		case k < 14 && len(ztabs) > 0: // candidate names in a real zone: readings inside a gap, mutated encodings
+			z := vPick(r, ztabs)
+			time.Local = z.loc
+			ff := vPick(r, vC26ZoneFormats)
+			u := zoneUnix(z)
+			first, local := localTable(z, u)
+			var v, kind string
+			if r.Bool() {
+				// the civil fields of u read as UTC: near a forward change this reading may not exist locally
+				v, kind = Path{Path: name, Start: time.Unix(u, ns).UTC()}.Encode(ff), "utc-reading"
+				if strings.Contains(ff, "%z") {
+					v = Path{Path: name, Start: time.Unix(u, ns).In(time.FixedZone("x", int(vC26OffAt(z.loc, u))))}.Encode(ff)
+				}
+			} else {
+				// structural mutations only (digits untouched: the reading stays inside the shipped table's window;
+				// field mutations are exercised in the fixed-zone branch)
+				v = Path{Path: name, Start: time.Unix(u, ns).In(z.loc)}.Encode(ff)
+				v, kind = vC26Mutate(r, v)
+			}
+			o := vC26Decode(ff, v)
+			class := "zdec-" + kind + "-rejected"
+			if o.ok {
+				class = "zdec-" + kind + "-accepted"
+			}
+			if o.ok && o.reenc != v {
+				class = "zdec-recognised-not-reencodable"
+			}
+			zf, ztx := vC26TableCq(first, local)
+			out.Case(cqApp("ZDec", zf, ztx, cqBytes(ff), cqBytes(v), o.coq(), cqBytes(o.reenc)),
+				map[string]any{"kind": "zdecode", "zone": z.loc.String(), "format": ff, "candidate": v, "mutation": kind, "decoded": o.desc(),
+					"table": vC26TableDesc(first, local)}, class, o.ok)
 
 		default: // candidate names: encodings (canonical offsets) and their mutations
 			off := loff
